@@ -99,3 +99,20 @@ props["C06"]["manifest"] = {
     "note": "Trusted: Lean kernel and the three standard axioms; the harness/driver/table dumper. Not modelled: OS behaviour beyond regular files and missing paths, random_int's value, float arithmetic/rendering (correspondence only), signature validation (C01/C03 streams).",
     "technique": "regenerated table + decide over the whole table, Lean mirror of the host operations with kernel-checked contract theorems, sequence-level differential correspondence",
 }
+
+props["C09"] = {
+    "harness": "c09",
+    "level": "proof",
+    "nontrivial": r"^c09 load 0 [2-9]",
+    "rule": "each case is a materialised directory: every import edge set on <= 3 (quick) / <= 4 (thorough) files under every companion layout (no companions, f0.zyi beside f0.zy, a companion further down, two companions, a program root), plus random worlds up to 6 / 12 files with repeated imports and missing targets; every import is spelled at random as relative, ./, sub/../, absolute, through a symlinked file or through a symlinked directory. CompilerSession::graph's answer (sources, import and signature edges, provider order, or the reported cycle, or the missing-import error) is compared with the Lean mirror of loader.rs/graph.rs, and an independent oracle checks that no file is loaded twice, providers precede consumers and reported cycle steps are real edges forming a closed walk. Non-trivial = distinct worlds with at least two files.",
+    "explanation": "loader.rs (dedup map filled before recursion, import and signature edges) and graph.rs (cycle detector with explicit path stacks, provider order) are mirrored in Lean and compared with CompilerSession::graph on every materialised world; kernel-checked theorems about the mirror are listed under `theorems` (statements not yet proved stay in ZV/Props/C09Statements.lean and are not counted).",
+    "trusted_base": [KERNEL, AXIOMS, HARNESS,
+                     "modelled, not verified: lang/session/src/source/loader.rs and graph.rs (SourceCycleDetector, ProviderOrder) are mirrored by ZV/Model/SourceGraph.lean and compared on every run; the file system and Path::canonicalize are inputs of the model (observed through mixed spellings and symlinks); the semantic half of C09 (an import means the provider's closed term; fresh copy per occurrence; companion = ascription) is exercised by generated multi-file programs, not modelled here"],
+    "assumptions": ["Path::canonicalize maps every spelling of a file (relative, absolute, ./, ../, symlinked file or directory) to one identity"],
+}
+
+props["C09"]["manifest"] = {
+    "text": "Source-graph loading (dedup by canonical identity, import and companion-signature edges), the cycle detector and the provider order are mirrored in Lean and compared with CompilerSession::graph on every import edge set over a few files under several companion layouts and on random larger worlds, with each import spelled relative / absolute / through ./, ../ and symlinks; an independent oracle checks single loading, providers-first and that reported cycle steps are real edges forming a closed walk. Theorems (cycle soundness and completeness, provider order is topological, loading is total and deduplicating) are stated in full and proved as they land.",
+    "note": "Trusted: Lean kernel and the three standard axioms; the harness/driver; Path::canonicalize giving one identity per file. The semantic half (import = inlining of the closed provider term, fresh copy per occurrence, companion = ascription) is covered by the program-level checks of C07/C02, not by this model.",
+    "technique": "Lean mirror of the loader, cycle detector and provider order with kernel-checked graph theorems + exhaustive small-world differential correspondence over a real file system",
+}
